@@ -2,5 +2,4 @@ From Coq Require Import List ZArith NArith Bool Arith String.
 Import ListNotations.
 From DD Require Import Base.Sx Base.PyStr Base.Value Diff.DiffModel Delta.DeltaIOShow.
 Definition I z := VAtom (AInt z).
-Eval vm_compute in run_dio [] (mkCfg false 0 1 true) true [([], [(3,3);(4,2)])] [] [] [] false false
-  (VList [I 1; I 2; I 3; I 4]) (VList [I 2; VAtom (AStr [97%N]); VAtom ANone; I 7; I 9]) (VList [I 1; I 2; I 3; I 4]).
+Eval vm_compute in run_dio [] (mkCfg false 0 1 true) true [] [] [] [] false false (VList [I 1]) (VList [VAtom (ABool true); I 1]) (VList [I 1]).
